@@ -80,11 +80,19 @@ def run(ctx):
             if neg:
                 b, o = o, b
             return dep and isinstance(b, int) and b not in (0, False) and o == 0 and o is not False
-        if isinstance(expr, ast.Call) and dotted(expr.func) in ('int', 'bool', 'len') and expr.args:
+        if isinstance(expr, ast.Call) and dotted(expr.func) in ('int', 'bool') and expr.args:
+            # int(bool(x)) / bool(x) / int(bool(len(x))): a 0/1 value.  A bare count is NOT accepted:
+            # exit statuses are taken modulo 256, so 256 conflicts would exit 0.
             inner = expr.args[0]
-            if isinstance(inner, ast.Call) and dotted(inner.func) in ('bool', 'len'):
+            if dotted(expr.func) == 'int' and not (isinstance(inner, ast.Call) and dotted(inner.func) == 'bool'):
+                return False
+            while isinstance(inner, ast.Call) and dotted(inner.func) in ('bool', 'len') and inner.args:
                 inner = inner.args[0]
             return depends_on(mm, inner, conflict_filter, defs) is not None
+        if isinstance(expr, ast.Call) and dotted(expr.func) == 'min' and len(expr.args) == 2:
+            consts_ = [const_val(a) for a in expr.args if isinstance(const_val(a), int)]
+            others = [a for a in expr.args if not isinstance(const_val(a), int)]
+            return bool(consts_) and 0 < consts_[0] < 256 and bool(others) and depends_on(mm, others[0], conflict_filter, defs) is not None
         return False
 
     for r in rets:
